@@ -725,6 +725,15 @@ func (tb *TB) bin(op Op, a, b *Term) *Term {
 		if b.IsConst() {
 			return tb.bin(OpAdd, a, tb.BV(w, -b.K))
 		}
+		// (x + y) - x = y
+		if a.Op == OpAdd {
+			if a.A == b {
+				return a.B
+			}
+			if a.B == b {
+				return a.A
+			}
+		}
 	case OpMul:
 		if a.IsConst() {
 			a, b = b, a
